@@ -125,8 +125,14 @@ func (p *Printer) printAssertion(a *model.Assertion) (int, error) {
 			return p.count - start, err
 		}
 	} else {
+		// The multi-line form ends with a line break: together with the line
+		// break that follows every directive this gives the empty line at
+		// which the parser stops reading balance lines.
+		if _, err := io.WriteString(p, "\n"); err != nil {
+			return p.count - start, err
+		}
 		for _, bal := range a.Balances {
-			if _, err := fmt.Fprintf(p, "\n%s %s %s", bal.Account, bal.Quantity, bal.Commodity.Name()); err != nil {
+			if _, err := fmt.Fprintf(p, "%s %s %s\n", bal.Account, bal.Quantity, bal.Commodity.Name()); err != nil {
 				return p.count - start, err
 			}
 		}
